@@ -283,11 +283,14 @@ class WriteScenario:
         self.lost = False
         self.budget = {"pause": 1, "lost": 1}
         self.nontrivial = False
-        self.task = loop.create_task(self._writer())
+        self.call_order: list = []
+        self.second = None
+        self.task = loop.create_task(self._writer(self.cfg["lines"]))
 
-    async def _writer(self):
-        for line in self.cfg["lines"]:
+    async def _writer(self, lines):
+        for line in lines:
             try:
+                self.call_order.append(line)
                 await self.t.write(line)
                 self.results.append(("ok", line))
             except TransportError as exc:
@@ -298,8 +301,10 @@ class WriteScenario:
 
     def enabled(self) -> list:
         evs = []
-        if self.task.done():
-            return evs
+        if self.cfg.get("second") and self.second is None:
+            evs.append("second-writer")  # another task of the application starts writing its own lines
+        if self.task.done() and (self.second is None or self.second.done()):
+            return [e for e in evs if e == "second-writer"]
         if not self.lost:
             if self.paused:
                 evs.append("resume")
@@ -311,6 +316,9 @@ class WriteScenario:
 
     def fire(self, label: str) -> None:
         self.nontrivial = True
+        if label == "second-writer":
+            self.second = self.loop.create_task(self._writer(self.cfg["second"]))
+            return
         if label == "pause":
             self.budget["pause"] -= 1
             self.paused = True
@@ -325,6 +333,8 @@ class WriteScenario:
             self.protocol.connection_lost(ConnectionResetError("lost"))
 
     def finished(self) -> bool:
+        if self.cfg.get("second") and (self.second is None or not self.second.done()):
+            return False
         return self.task.done() and self.loop.ready_count() == 0
 
     def verdict(self, hang: bool) -> list:
@@ -332,6 +342,17 @@ class WriteScenario:
 
         def bad(k, what):
             viols.append((f"C17|write-{k}|{self.cfg['kind']}", f"{self.cfg}: {what}", None))
+
+        if self.cfg.get("second") and not hang:
+            # two tasks write: the stream carries the lines in the order the write calls were made
+            want = b"".join(l.encode("utf-8") for l in self.call_order)
+            if any(r[0] == "foreign" for r in self.results):
+                bad("foreign-exception", f"results {self.results}")
+            elif not self.lost and self.sock.received != want:
+                bad("call-order", f"write calls were made in the order {self.call_order}; the peer received {self.sock.received!r}")
+            elif self.lost and not want.startswith(self.sock.received):
+                bad("call-order", f"write calls were made in the order {self.call_order}; the peer received {self.sock.received!r}, not a prefix")
+            return viols
 
         if hang:
             bad("hang", f"writer blocked with no event enabled (paused={self.paused}, lost={self.lost}); results {self.results}")
@@ -555,6 +576,11 @@ def run(ctx: core.Ctx) -> core.Report:
     small = [s for s in strings if len(s) <= (4 if ctx.quick else 5)]
     for i in range(0, len(small), per):
         jobs.append(("tcp", small[i : i + per], 2, ("eof",), ("eager", "late")))
+    # bytes that mean something to str.format / % / regex machinery an error message might be built with
+    special = [b'1;{"t":2}', b"{\xff}\n", b"{0}\n{", b"%s\n%(x)s", b"a{b\nc}d\n", b"}\n", b"\\\n(", b"%\n"]
+    jobs.append(("tcp", special, 64, ("eof", "error"), ("eager", "late")))
+    jobs.append(("serial", special, 64, ("eof",), ("eager",)))
+    jobs.append(("tcp", special, 2, ("eof",), ("eager",)))
     res = core.pmap(job_read, jobs, ctx.workers, chunksize=1)
     n_read = sum(r[0] for r in res)
     viols = [core.Violation(k, w, rep) for r in res for k, w, rep in r[1]]
@@ -564,12 +590,13 @@ def run(ctx: core.Ctx) -> core.Report:
     line_sets = [["1;1;1;0;2;a\n"], ["1;1;1;0;2;é\n", "2;2;1;0;2;b\n"], ["1;1;1;0;2;a;b\n", "1;255;3;0;11;日本\n", "0;0;0;0;0;\n"],
                  ["1;1;1;0;2;a\rb\x0bc\x0cd\x1ce\x85f\u2028g\u2029h\n", "1;1;1;0;2; lead and trail \t\n"], ["no terminator", "\n", "x\n\ny\n"]]
     wcfgs = [{"kind": k, "lines": ls, "faults": f} for k in KINDS for ls in line_sets for f in (False, True)]
+    wcfgs += [{"kind": k, "lines": ["FIRST\n", "third\n"], "second": ["SECOND\n"], "faults": f} for k in KINDS for f in (False, True)]
     wres = explore.explore(ctx, MOD, wcfgs, 2 if ctx.quick else 99)
     viols += wres["violations"]
     cov = {
         "evaluations": n_read + wres["executions"] + 2,
         "distinct_nontrivial": n_read + wres["nontrivial"],
-        "rule": "read side: every byte string up to length L over 6 byte values x every composition into arrival chunks x {EOF, connection error} x 3 consumer schedules (reads pending during / between / after arrivals), through a real StreamReader and real TCP/Serial transports, plus a limit=2 reader for over-long lines; write side: all schedules of pause/resume/connection-lost events against 1-3 writes through a real StreamWriter/StreamReaderProtocol; life cycle: use before connect, failing factories, failing close. Every (string, chunking, ending, schedule) is distinct",
+        "rule": "read side: every byte string up to length L over 6 byte values x every composition into arrival chunks x {EOF, connection error} x 3 consumer schedules (reads pending during / between / after arrivals), through a real StreamReader and real TCP/Serial transports, plus a limit=2 reader for over-long lines; write side: all schedules of pause/resume/connection-lost events against 1-3 writes through a real StreamWriter/StreamReaderProtocol, also with a second writer task starting at any point (stream order = call order); life cycle: use before connect, failing factories, failing close. Every (string, chunking, ending, schedule) is distinct",
         "exhaustive": True,
         "bounds": {"L": L, "byte_strings": len(strings), "write_executions": wres["executions"]},
         "samples": [{"data": strings[(ctx.seed * 13 + 500) % len(strings)].hex(), "cuts": [1], "ending": "eof"}, wres["sample"]],
